@@ -2,7 +2,7 @@
 (* P-level statement of C16 for the shared counter, on top of shcounter.tla (unchanged). *)
 (* The shipped spec states only the temporal CntrValueOK == <>[](cntr = NUM_NODES); its   *)
 (* safety content is stated here.  zprev is the value of cntr before the last step.       *)
-EXTENDS shcounter
+EXTENDS shcounter, Integers
 
 VARIABLES zprev
 zhvars == <<vars, zprev>>
